@@ -22,7 +22,8 @@ for item in channel:
 
 
 def payloads(rnd, big):
-    sizes = [0, 1, 9, 4095, 4096, 4097, 65536 + 3] + ([1 << 20, (1 << 22) + 1] if big else [])
+    # 4081, 8177, 65521, 131057: a bytes item of that size makes a frame (9 header + 15 serializer bytes) of exactly 2**12, 2**13, 2**16, 2**17 bytes
+    sizes = [0, 1, 9, 4081, 4095, 4096, 4097, 8177, 65521, 65536 + 3, 131057] + ([1 << 20, (1 << 22) + 1] if big else [])
     out = []
     for n in sizes:
         out.append(bytes(rnd.getrandbits(8) for _ in range(min(n, 4096))) * (n // 4096 + 1))
